@@ -95,7 +95,14 @@ fuzz_target!(|data: &[u8]| {
     }
     let p = props::by_id(PROFILES[pi]).unwrap();
     let scn = Arc::new((p.build)(&raw, Tier::Quick, true));
-    let h = exec::execute(&scn, &exec::Sched::Bytes(sched_bytes));
+    let h = exec::execute(&scn, &exec::Sched::Bytes(sched_bytes.clone()));
+    if std::env::var("VERIF_FUZZ_TRACE").is_ok() {
+        // debugging aid: dump the decoded case as a replay file for `vsched trace` / `vsched replay`
+        let r = drive::Replay { property: p.id.to_string(), driver: "S".into(), sched: exec::Sched::Bytes(sched_bytes), message: "decoded fuzz input".into(), scenario: (*scn).clone() };
+        let path = std::env::var("VERIF_FUZZ_TRACE").unwrap();
+        let _ = std::fs::write(&path, serde_json::to_string_pretty(&r).unwrap());
+        eprintln!("decoded case written to {}", path);
+    }
     let known = {
         static K: OnceLock<std::collections::HashMap<&'static str, Vec<(String, String)>>> = OnceLock::new();
         K.get_or_init(|| PROFILES.iter().map(|id| (*id, drive::known_sigs(id))).collect()).get(p.id).cloned().unwrap_or_default()
